@@ -120,6 +120,10 @@ pub struct Doc {
     /// raw text override (unparsable documents); when set `tests` must be empty
     #[serde(default)]
     pub raw: Option<String>,
+    /// Cram: all test cases in ONE block (one title, then `$` lines without titles or blank
+    /// lines between them)
+    #[serde(default)]
+    pub compact: bool,
 }
 
 fn yes() -> bool {
